@@ -70,6 +70,9 @@ fn startpoints_check<const N: usize>() {
 #[kani::proof]
 #[kani::unwind(8)]
 #[kani::stub(std::backtrace::Backtrace::capture, crate::error::verif_harness::stub_backtrace_capture)]
+#[kani::stub(crate::error::RusticError::new, crate::error::verif_harness::stub_rustic_new)]
+#[kani::stub(crate::error::RusticError::attach_context, crate::error::verif_harness::stub_attach_context)]
+#[kani::stub(crate::error::RusticError::attach_source, crate::error::verif_harness::stub_attach_source)]
 pub(crate) fn c01_ranged_read_startpoints_3() { startpoints_check::<3>(); }
 
 //@ harness: c01_ranged_read_startpoints_0 c01_ranged_read_startpoints_1 c01_ranged_read_startpoints_4
@@ -84,12 +87,21 @@ pub(crate) fn c01_ranged_read_startpoints_3() { startpoints_check::<3>(); }
 #[kani::proof]
 #[kani::unwind(8)]
 #[kani::stub(std::backtrace::Backtrace::capture, crate::error::verif_harness::stub_backtrace_capture)]
+#[kani::stub(crate::error::RusticError::new, crate::error::verif_harness::stub_rustic_new)]
+#[kani::stub(crate::error::RusticError::attach_context, crate::error::verif_harness::stub_attach_context)]
+#[kani::stub(crate::error::RusticError::attach_source, crate::error::verif_harness::stub_attach_source)]
 pub(crate) fn c01_ranged_read_startpoints_0() { startpoints_check::<0>(); }
 #[kani::proof]
 #[kani::unwind(8)]
 #[kani::stub(std::backtrace::Backtrace::capture, crate::error::verif_harness::stub_backtrace_capture)]
+#[kani::stub(crate::error::RusticError::new, crate::error::verif_harness::stub_rustic_new)]
+#[kani::stub(crate::error::RusticError::attach_context, crate::error::verif_harness::stub_attach_context)]
+#[kani::stub(crate::error::RusticError::attach_source, crate::error::verif_harness::stub_attach_source)]
 pub(crate) fn c01_ranged_read_startpoints_1() { startpoints_check::<1>(); }
 #[kani::proof]
 #[kani::unwind(8)]
 #[kani::stub(std::backtrace::Backtrace::capture, crate::error::verif_harness::stub_backtrace_capture)]
+#[kani::stub(crate::error::RusticError::new, crate::error::verif_harness::stub_rustic_new)]
+#[kani::stub(crate::error::RusticError::attach_context, crate::error::verif_harness::stub_attach_context)]
+#[kani::stub(crate::error::RusticError::attach_source, crate::error::verif_harness::stub_attach_source)]
 pub(crate) fn c01_ranged_read_startpoints_4() { startpoints_check::<4>(); }
